@@ -138,16 +138,29 @@ def worker_main(jobfile, shard, nshards):
 
     def fail(tags, summary, ei, detail, known=None):
         if epi["cur"] is not None:
-            # the same edge conformed without the episode: what differs is the freeze/assign/unfreeze in the history
-            tags, known = ["C17"], None
-            summary = f"after freeze_tree(); {epi['cur'][1]} = <its current value>; unfreeze_tree() inserted before step {epi['cur'][0]} of the path: " + summary
-            detail = dict(detail, episode=list(epi["cur"]))
-        if len(fails) < 200:
+            # the same edge conformed without the inserted calls: what differs is their presence in the history
+            pl = epi["cur"][1]
+            tags, known = [ep_tag()], None
+            what = (f"{pl['a']}({pl.get('kind', '')})" if isinstance(pl, dict) else f"freeze_tree(); {pl} = <its current value>; unfreeze_tree()")
+            summary = f"after {what} inserted before step {epi['cur'][0]} of the path (the specification says these calls change nothing there): " + summary
+            detail = dict(detail, inserted=[epi["cur"][0], pl])
+        # a step that misbehaves on a manager obtained by pickling / dump+load / copy_expr_from is (also) that transfer's failure:
+        # "reacts identically to later assignments", "same contents and consistency under any further sequence"
+        hist = set()
+        for i in path_to(g, g.edges[ei][0]):
+            pl = g.edges[i][1]
+            if pl.get("a") == "Transfer":
+                hist.add("C12" if pl["kind"].startswith("pickle") else "C11")
+        if hist and epi["cur"] is None:
+            tags = sorted(set(tags) | hist)
+        percat[tuple(tags)] += 1
+        if percat[tuple(tags)] <= 40:           # per tag set, so that one frequent kind of failure cannot crowd out another property's
             fails.append({"tags": tags, "summary": summary, "edge": ei, "detail": detail, "known": known,
                           "path": [g.edges[i][1] for i in path_to(g, g.edges[ei][0])] + [g.edges[ei][1]]})
         stats["fail"] += 1
         failed_now[0] += 1
     failed_now = [0]
+    percat = collections.Counter()
 
     # fault edges: group candidates by (src, action key)
     groups = collections.OrderedDict()
@@ -172,14 +185,29 @@ def worker_main(jobfile, shard, nshards):
         groups = collections.OrderedDict((k, v) for k, v in groups.items() if keepmask[k])
     todo = [k for i, k in enumerate(groups) if i % nshards == shard]
 
-    def episode(w, st, leaf):
-        """freeze_tree(); leaf = <current value>; unfreeze_tree(): the identity wherever the specification says EpSafe"""
-        v = ml.spec_state(g.states[st])["mem"][leaf]
-        for lab_ in ({"a": "Freeze"}, {"a": "SetValue", "l": leaf, "v": v}, {"a": "Unfreeze"}):
+    def episode(w, st, payload):
+        """inserted calls that the specification says change nothing at this state:
+           a leaf name  -> freeze_tree(); leaf = <current value>; unfreeze_tree()   (EpSafe, C17)
+           a label dict -> a self-loop action of the emitted graph at this state (pickle round trip, refresh, clone, ...): the
+                           behaviour continues on whatever manager that action hands back
+        -> (reason of failure or None, world)"""
+        if isinstance(payload, dict):
+            r = ml.execute(w, payload)
+            if r["exc"] is not None:
+                return f"{payload['a']}({payload.get('kind', '')}) raised {r['exc']!r}", w
+            return None, (r["world"] if r.get("world") is not None else w)
+        v = ml.spec_state(g.states[st])["mem"][payload]
+        for lab_ in ({"a": "Freeze"}, {"a": "SetValue", "l": payload, "v": v}, {"a": "Unfreeze"}):
             r = ml.execute(w, lab_)
             if r["exc"] is not None:
-                return f"{lab_['a']} raised {r['exc']!r}"
-        return None
+                return f"{lab_['a']} raised {r['exc']!r}", w
+        return None, w
+
+    def ep_tag():
+        pl = epi["cur"][1]
+        if isinstance(pl, dict):
+            return ("C12" if pl.get("kind", "").startswith("pickle") else "C11") if pl["a"] == "Transfer" else "C03"
+        return "C17"
 
     def go_to(src, ei):
         """fresh world driven along the BFS path to src; returns None if the prefix does not conform"""
@@ -187,9 +215,9 @@ def worker_main(jobfile, shard, nshards):
         for k, pi in enumerate(path_to(g, src)):
             ps, plab, pd = g.edges[pi]
             if epi["cur"] is not None and epi["cur"][0] == k:
-                why = episode(w, ps, epi["cur"][1])
+                why, w = episode(w, ps, epi["cur"][1])
                 if why:
-                    fail(["C17"], why, ei, {})
+                    fail([ep_tag()], why, ei, {})
                     return None
             fault = plab.get("k") if plab.get("exc") == "Fault" else None
             res = ml.execute(w, plab, fault=fault)
@@ -214,9 +242,9 @@ def worker_main(jobfile, shard, nshards):
                     stats["prefix_diverged"] += 1       # reported by that edge's own replay
                     return None
         if epi["cur"] is not None and epi["cur"][0] == len(path_to(g, src)):
-            why = episode(w, src, epi["cur"][1])
+            why, w = episode(w, src, epi["cur"][1])
             if why:
-                fail(["C17"], why, ei, {})
+                fail([ep_tag()], why, ei, {})
                 return None
         return w
 
@@ -327,7 +355,7 @@ def worker_main(jobfile, shard, nshards):
             elif ordkind == "order":
                 fail(["C02"], f"{lab['a']}({lab['l']}): {why}", eis[0], {"runs": res["runs"], "prec": lab["prec"]},
                      known="struct-cycle-order" if lab.get("cyc") else None)
-        elif res["runs"]:
+        elif res["runs"] and lab["a"] != "Transfer":
             fail(["C02"], f"{lab['a']}: tasks ran ({res['runs']}) in a call that triggers none", eis[0], {"runs": res["runs"]})
         # ---- state ---------------------------------------------------------------------------------------
         if diff:
@@ -350,7 +378,7 @@ def worker_main(jobfile, shard, nshards):
                  eis[0], {"diff": repr(diff)[:1500]}, known)
             return
         # ---- C03: queries ---------------------------------------------------------------------------------
-        if queries and epi["cur"] is None and "idx" in lab and "rdeps" in lab["idx"]:
+        if queries and (epi["cur"] is None or isinstance(epi["cur"][1], dict)) and "idx" in lab and "rdeps" in lab["idx"]:
             stats["query_edges"] += 1
             try:
                 oi = ml.abs_idx(w)
@@ -405,24 +433,38 @@ def worker_main(jobfile, shard, nshards):
     import random as _random
     erng = _random.Random(f"{job.get('seed', 0)}/{shard}/episodes")
     nep = job.get("episodes", 0)
+    wanted_loops = set(job.get("loops", ()))
+    nloops = job.get("nloops", 0)
+    selfloops = collections.defaultdict(list)
+    if nloops:
+        seen_ = set()
+        for s_, lab_, d_ in g.edges:
+            if s_ == d_ and lab_.get("a") in ("Transfer", "Stutter") and lab_.get("exc", "none") == "none" and (s_, lab_.get("kind")) not in seen_:
+                seen_.add((s_, lab_.get("kind")))
+                selfloops[s_].append({k: v for k, v in lab_.items() if k in ("a", "kind")})
     for key in todo:
         epi["cur"] = None
         failed_now[0] = 0
         process(key)
-        if not nep or failed_now[0] or not isinstance(key[0], str):
-            continue        # episodes only on plain (non-fault) edges that conformed without them
+        if not (nep or nloops) or failed_now[0] or not isinstance(key[0], str):
+            continue        # inserted calls only on plain (non-fault) edges that conformed without them
         ei = groups[key][0]
         src = g.edges[ei][0]
         path = path_to(g, src)
         sts = [g.edges[pi][0] for pi in path] + [src]
         cands = []
-        for k, st in enumerate(sts):
-            leaves = uni["leaves"] if st == g.init else g.ep.get(st, [])
-            cands.extend((k, l) for l in leaves)
-        if not cands:
-            continue
-        erng.shuffle(cands)
-        for c in (cands if nep < 0 else cands[:nep]):
+        if nep:
+            for k, st in enumerate(sts):
+                leaves = uni["leaves"] if st == g.init else g.ep.get(st, [])
+                cands.extend((k, l) for l in leaves)
+            erng.shuffle(cands)
+            cands = cands if nep < 0 else cands[:nep]
+        # self-loop actions of the specification at the source state (pickle round trip, refresh / cleanup / verify / clone ...),
+        # inserted right before the edge: the BFS tree reaches each state along ONE path, a history-dependent defect needs the others
+        loops = [l for l in selfloops.get(src, []) if l.get("kind") in wanted_loops]
+        erng.shuffle(loops)
+        cands += [(len(path), l) for l in loops[:nloops]]
+        for c in cands:
             epi["cur"] = c
             process(key)
         epi["cur"] = None
@@ -432,10 +474,10 @@ def worker_main(jobfile, shard, nshards):
 # ---------------------------------------------------------------------------------------------------------
 # main-process side
 
-def run_replay(g, universe, keys, scratch, mode, hashseeds, nshards, queries=True, timeout=3600, fan_keep=1.0, seed=0, episodes=0, digest=None):
+def run_replay(g, universe, keys, scratch, mode, hashseeds, nshards, queries=True, timeout=3600, fan_keep=1.0, seed=0, episodes=0, digest=None, loops=(), nloops=0):
     """-> (fails, stats, samples) aggregated over hash seeds and shards; digest: dict filled with {(mode, hashseed): {edge: transcript digest}}"""
     job = {"graph": g, "universe": universe, "keys": keys, "scratch": scratch, "mode": mode, "queries": queries,
-           "fan_keep": fan_keep, "seed": seed, "episodes": episodes, "digest": digest is not None}
+           "fan_keep": fan_keep, "seed": seed, "episodes": episodes, "digest": digest is not None, "loops": list(loops), "nloops": nloops}
     fd, jobfile = tempfile.mkstemp(prefix="xdv-job-", suffix=".pickle")
     with os.fdopen(fd, "wb") as fh:
         pickle.dump(job, fh)
